@@ -232,19 +232,28 @@ func ruleVD8(c *Ctx) {
 				guardIn := func(g *ssa.Function, sites []*ssa.BasicBlock, e env) {
 					eachInstr(g, func(r instrRef) {
 						lk, ok := r.In.(*ssa.Lookup)
-						if !ok || !lk.CommaOk {
+						if !ok {
 							return
 						}
 						if k, ok := constString(lk.Index); !ok || k != "epic" {
 							return
 						}
+						if mt, isMap := lk.X.Type().Underlying().(*types.Map); !isMap || mt.Elem().String() != "string" {
+							return
+						}
 						var val, okv ssa.Value
-						for _, u := range *lk.Referrers() {
-							if ex, ok := u.(*ssa.Extract); ok {
-								if ex.Index == 0 {
-									val = ex
-								} else {
-									okv = ex
+						if !lk.CommaOk {
+							// `epicID := updates["epic"]; epicID != ""`: an absent key reads as "", which the empty-string bypass
+							// below already stands for
+							val = lk
+						} else if lk.Referrers() != nil {
+							for _, u := range *lk.Referrers() {
+								if ex, ok := u.(*ssa.Extract); ok {
+									if ex.Index == 0 {
+										val = ex
+									} else {
+										okv = ex
+									}
 								}
 							}
 						}
@@ -902,6 +911,16 @@ func ruleVD10(c *Ctx) {
 					}
 					if cl, idx := callOf(mu.Key); cl == cs.Call.(*ssa.Call) && idx == 0 {
 						extended = true
+					}
+				}
+				// ... or seeded with the library's copy: maps.Copy(working, graph.Tasks)
+				if mm.Referrers() != nil {
+					for _, r := range *mm.Referrers() {
+						if call, ok := r.(ssa.CallInstruction); ok && calleeFullName(call.Common()) == "maps.Copy" && len(call.Common().Args) == 2 && call.Common().Args[0] == ssa.Value(mm) {
+							if _, nme, ok := fieldLoad(call.Common().Args[1]); ok && nme == "Tasks" && fromLoaded(call.Common().Args[1]) {
+								seeded = true
+							}
+						}
 					}
 				}
 				if seeded && extended {
